@@ -16,7 +16,8 @@ H = 'sim::http_proxy'
 
 
 def bound_fn(fn, call):
-    return [x['e']['usr'] for x in walk(call) if x['k'] == 'un' and x['op'] == '&' and is_node(x['e']) and x['e'].get('dk') == 'func']
+    """member functions a completion ends up in: &C::f bound with std::bind, or a lambda whose body only calls f"""
+    return q.completion_targets(fn, call)
 
 
 def check(run):
